@@ -255,10 +255,21 @@ pub fn run_engine_check(id: &str, tier: &str, seed: u64, budget_s: u64) -> i32 {
                         for k in ks {
                             let mut c2 = case.clone();
                             c2.sim.forced_close_steps = vec![k];
-                            // sometimes a second failure later in the same history
-                            if prng.chance(1, 4) { c2.sim.forced_close_steps.push(k + prng.range(1, 40) as usize); }
                             let r = Sim::new(c2.clone()).run();
+                            let n1 = r.steps;
                             absorb(&mut agg, &plan, &c2, r);
+                            // second level: for a third of the first-level positions, a second
+                            // failure at (sampled / all) later steps of the same history
+                            if n1 > k + 2 && prng.chance(1, 3) {
+                                let span = n1 - k - 1;
+                                let k2s: Vec<usize> = if npos == 0 { ((k + 1)..n1).collect() } else { (0..usize::min(12, span)).map(|_| k + 1 + prng.below(span as u64) as usize).collect() };
+                                for k2 in k2s {
+                                    let mut c3 = case.clone();
+                                    c3.sim.forced_close_steps = vec![k, k2];
+                                    let r = Sim::new(c3.clone()).run();
+                                    absorb(&mut agg, &plan, &c3, r);
+                                }
+                            }
                         }
                     }
                 }
@@ -329,7 +340,7 @@ pub fn run_replay(path: &str) -> i32 {
                     if sim.runner.poisoned { break; }
                     let rec = sim.step(e.clone());
                     let ev = match &rec.event { Event::Deliver(b) => format!("deliver[{}]", hex(b)), Event::Write(k) => format!("write({})", k), Event::Advance(d) => format!("advance({})", d), Event::Submit(o) => format!("submit(tag {} {})", o.tag, crate::world::op_kind(o).name()), other => other.kind().to_string() };
-                    println!("  #{:<4} t={:<8} {:<40} -> {:?} emitted={}:{} completions={:?} state={:?} next={:?}", rec.index, rec.time_ms, ev, rec.result, rec.emitted.len(), hex(&rec.emitted[..usize::min(12, rec.emitted.len())]), rec.completions.iter().map(|c| (c.0, c.1.short())).collect::<Vec<_>>(), rec.state_after, rec.next_service_ms);
+                    println!("  #{:<4} t={:<8} {:<40} -> {:?} emitted={}:{} completions={:?} state={:?} next={:?} {}", rec.index, rec.time_ms, ev, rec.result, rec.emitted.len(), hex(&rec.emitted[..usize::min(12, rec.emitted.len())]), rec.completions.iter().map(|c| (c.0, c.1.short())).collect::<Vec<_>>(), rec.state_after, rec.next_service_ms, if std::env::var("VERIF_TRACE").map(|v| v == "2").unwrap_or(false) { let sn = sim.runner.snapshot(); format!("ops={} hq={:?} cur={:?} pp={} pnp={} pwco={} pwc={} rq={:?} uq={:?}", sn.operations, sn.high_priority_queue_ids, sn.current_operation.as_ref().map(|c| (c.id, c.packet_type.clone(), c.exists)), sn.pending_publish, sn.pending_non_publish, sn.pending_write_completion_operations, sn.pending_write_completion, sn.resubmit_queue_ids, sn.user_queue_ids.len()) } else { String::new() });
                 }
             }
             let r = replay(&case, &events);
